@@ -219,6 +219,8 @@ def block_strategy(draw, tier, shard=0, nshards=1):
     c["seed"] = draw(st.integers(0, 2**31 - 1))
     c["n_prop_steps"] = draw(st.integers(1, 3))
     c["nw"] = draw(st.integers(1, 4))
+    # accumulated norms handed to the sampler's own entry point (a run continued from an earlier slice)
+    c["norms0"] = [draw(st.sampled_from([1.0, 0.5, 2.5, -1.5])) * (1 + 0.5j * draw(st.integers(0, 1))) for _ in range(4)]
     return c
 
 
@@ -248,6 +250,31 @@ def block_body(ctx, case):
     sc = float(np.sum(np.abs(el * ov)) / abs(np.sum(ov))) + 1e-300
     ctx.check_close("fp-block:energy-definition", case, "block energy - sum(E_L ovlp)/sum(ovlp)", complex(be), want, 1e-10, sc)
     ctx.check_close("fp-block:weight-definition", case, "block weight - sum(ovlp)", complex(bw), np.sum(ov), 1e-12, float(np.sum(np.abs(ov))) + 1e-300)
+    # the sampler's public free-projection entry point = the chain of its blocks, starting from whatever norms the state carries
+    try:
+        smp2 = sampling.sampler(n_prop_steps=int(case["n_prop_steps"]), n_ene_blocks=1, n_sr_blocks=1, n_blocks=2)
+        start = _prop_data(trial, wd, np.tile(s.up, (nw, 1, 1)), np.tile(s.dn, (nw, 1, 1)))
+        start["key"] = jax.random.PRNGKey(int(case["seed"]))
+        start["norms"] = jnp.asarray(np.asarray(case["norms0"][:nw], complex))
+        a = {k: (list(v) if isinstance(v, list) else v) for k, v in start.items()}
+        tr_pub, be_pub, bw_pub, _ = smp2.propagate_free(H, hd, prop, a, trial, wd)
+        b = {k: (list(v) if isinstance(v, list) else v) for k, v in start.items()}
+        b["overlaps"] = trial.calc_overlap(b["walkers"], wd)
+        bes, bws = [], []
+        for _ in range(2):
+            b, (_, be_k, bw_k) = smp2._block_scan_free(b, None, hd, prop, trial, wd)
+            bes.append(complex(be_k))
+            bws.append(complex(bw_k))
+    except Exception as e:
+        ctx.fail(f"fp:raised-{type(e).__name__}:{case['kind']}:public-entry", case, f"{type(e).__name__}: {e}")
+        return
+    ctx.count("fp-block:public-entry-vs-chain")
+    wsc = float(np.max(np.abs(bws))) + 1e-300
+    if abs(np.sum(bws)) > 1e-6 * wsc:
+        ctx.check_close("fp-block:public-entry:weights", case, "block weights of sampler.propagate_free - chain of its blocks from the carried norms", np.asarray(bw_pub), np.asarray(bws), 1e-10, wsc)
+        ctx.check_close("fp-block:public-entry:energies", case, "block energies of sampler.propagate_free - chain of its blocks", np.asarray(be_pub), np.asarray(bes), 1e-8, float(np.max(np.abs(bes))) + 1.0)
+    nm_pub = np.asarray(tr_pub["norms"])[-1]
+    ctx.check_close("fp-block:public-entry:norms", case, "final norms of sampler.propagate_free - chain of its blocks", nm_pub, np.asarray(b["norms"]), 1e-10, float(np.max(np.abs(np.asarray(b["norms"])))) + 1e-300)
 
 
 SUBCHECKS = [
